@@ -181,7 +181,7 @@ Lemma decode_body_ok m cs fin hc bc ru mx rest log :
 Proof.
   intros Hmx Hok Hcs. destruct (frame_ok_facts mx m Hmx Hok) as [Hc [H32 [H8 [HH [HL [Hs0 HsB]]]]]].
   pose proof (eff_max_range mx Hmx) as Hr. destruct Hok as [_ [Hsegs _]].
-  unfold decode_body. rewrite total_size_frame_header by assumption.
+  unfold decode_body, gdecode_body. rewrite total_size_frame_header by assumption.
   rewrite wrap64_small by lia.
   destruct ((sum_len m >? eff_max mx - len (frame_header m)) || (sum_len m >? max_int)) eqn:E;
     [unfold max_int, max_segment_size, two32 in *; lia|].
@@ -219,7 +219,7 @@ Lemma decode_body_short m cs fin hc bc ru mx log :
 Proof.
   intros Hmx Hok Hcs. destruct (frame_ok_facts mx m Hmx Hok) as [Hc [H32 [H8 [HH [HL [Hs0 HsB]]]]]].
   pose proof (eff_max_range mx Hmx) as Hr. destruct Hok as [_ [Hsegs _]].
-  unfold decode_body. rewrite total_size_frame_header by assumption.
+  unfold decode_body, gdecode_body. rewrite total_size_frame_header by assumption.
   rewrite wrap64_small by lia.
   destruct ((sum_len m >? eff_max mx - len (frame_header m)) || (sum_len m >? max_int)) eqn:E;
     [unfold max_int, max_segment_size, two32 in *; lia|].
@@ -261,7 +261,7 @@ Proof.
     assert (Hl : length (firstn (Z.to_nat H) s) = length (frame_header m)).
     { rewrite firstn_length. unfold H, len in *. lia. }
     symmetry. exact (app_eq_len _ _ _ _ Hpre (eq_sym Hl)). }
-  unfold decode1, decode1_gen. cbn [d_max d_rd].
+  unfold decode1, decode1_gen, gdecode1_gen. cbn [d_max d_rd].
   replace (negb (mx =? 0) && (mx <? word_size)) with false
     by (unfold max_ok, word_size in *; destruct (mx =? 0) eqn:E; cbn; lia).
   change (if mx =? 0 then default_decode_limit else mx) with (eff_max mx).
@@ -332,7 +332,7 @@ Proof.
   set (H := len (frame_header m)) in *.
   destruct (Z_lt_ge_dec (len q) H) as [Hsh|Hlong].
   - (* cut inside the header *)
-    unfold decode1, decode1_gen. cbn [d_max d_rd].
+    unfold decode1, decode1_gen, gdecode1_gen. cbn [d_max d_rd].
     replace (negb (mx =? 0) && (mx <? word_size)) with false
       by (unfold max_ok, word_size in *; destruct (mx =? 0) eqn:E; cbn; lia).
     change (if mx =? 0 then default_decode_limit else mx) with (eff_max mx).
@@ -373,7 +373,7 @@ Lemma decode1_eof cs hc bc ru mx : max_ok mx -> concat cs = [] ->
   exists cs', decode1 (mkD (mkReader cs EOF) hc bc ru mx) = (mkD (mkReader cs' EOF) hc bc ru mx, DEof, [])
               /\ concat cs' = [].
 Proof.
-  intros Hmx Hcs. unfold decode1, decode1_gen. cbn [d_max d_rd].
+  intros Hmx Hcs. unfold decode1, decode1_gen, gdecode1_gen. cbn [d_max d_rd].
   replace (negb (mx =? 0) && (mx <? word_size)) with false
     by (unfold max_ok, word_size in *; destruct (mx =? 0) eqn:E; cbn; lia).
   destruct (read_full_short (mkReader cs EOF) word_size ltac:(cbn [r_chunks]; rewrite Hcs; unfold word_size; cbn; lia))
